@@ -3,8 +3,8 @@ package c18
 import (
 	"context"
 	"fmt"
-	"sort"
 	"runtime"
+	"sort"
 	"sync"
 	"sync/atomic"
 	"time"
@@ -297,7 +297,7 @@ func (o *outcome) step(s Step) bool {
 		if m.Kind != "next" && uc != nil && c.IdleMs == 0 && !stalled {
 			// last subscription gone => the client closes the connection; wait until the upstream sees that
 			// so that the next step does not race with the close.
-			o.aid("conn-closed-after-last-terminal", func() bool { return w.liveOn(uc) > 0 || uc.closed })
+			o.aid("conn-closed-after-last-terminal", func() bool { return w.liveOn(uc) > 0 || uc.closed || w.readerBlockedConn(uc) })
 		}
 	case "release":
 		i := s.Sub
@@ -346,7 +346,7 @@ func (o *outcome) step(s Step) bool {
 				o.aid("stop-seen", func() bool { return st.stopSeen || uc.closed })
 			}
 			if c.IdleMs == 0 {
-				o.aid("conn-closed-after-last-cancel", func() bool { return w.liveOn(uc) > 0 || uc.closed })
+				o.aid("conn-closed-after-last-cancel", func() bool { return w.liveOn(uc) > 0 || uc.closed || w.readerBlockedConn(uc) })
 			}
 		}
 		if us != nil {
@@ -522,7 +522,9 @@ func (o *outcome) burst() {
 			cw.Add(1)
 			go func() {
 				defer cw.Done()
-				w.wait(watch, 0, func() bool { return len(st.msgs) >= s.At || st.terminalAt() >= 0 || (st.returned && st.err != nil) || st.cancelIssued })
+				w.wait(watch, 0, func() bool {
+					return len(st.msgs) >= s.At || st.terminalAt() >= 0 || (st.returned && st.err != nil) || st.cancelIssued
+				})
 				w.endSub(i, true, s.Deadline, false)
 			}()
 		}
